@@ -5,6 +5,7 @@
    endpoint's business: EndpointLink.v delivers each frame once, in order) - to conclude that the two games used
    the same input for h at every frame both have confirmed and simulated. *)
 From GGRS Require Import Base Consts Queue QueueProofs Sync P2P Session SessionProofs SessionSparse SessionProgress SessionSparse2 SessionTimeline SessionTimelineSparse SessionLockstep.
+From GGRS Require Spectator SpectatorProofs.
 From Coq Require Import ZifyBool ZifyNat ZifyN.
 Open Scope Z_scope.
 
@@ -113,6 +114,86 @@ Proof.
   rewrite Hmh in HmA0. injection HmA0 as -> Hv.
   destruct (HheldA _ _ _ f' EgA HfA HcfA) as (_ & HvA).
   rewrite HvA, HvB. symmetry. exact Hv.
+Qed.
+
+(* ---------- a host and a spectator ---------- *)
+(* what the host hands to its spectators, frame by frame: the values only *)
+Definition broadcast_values (outs : list (pout * apires)) : list (list Z) :=
+  map (fun fm => map pi_val (snd fm)) (all_spec_sends outs).
+
+(* the link contract host -> spectator: the frames that reached the spectator are, in order, the first so-many
+   frames the host handed out (the endpoint delivers each frame once, in order, unaltered) *)
+Definition spectator_got_prefix (outsH : list (pout * apires)) (opsS : list Spectator.sp_hop) : Prop :=
+  Spectator.sp_hist opsS = firstn (length (Spectator.sp_hist opsS)) (broadcast_values outsH).
+
+Lemma nth_map_zrange : forall {A} (F : Z -> A) (N : nat) (a : Z) (k : nat) (dflt : A), (k < N)%nat ->
+  nth k (map F (zrange_from a N)) dflt = F (a + Z.of_nat k).
+Proof.
+  intros A F. induction N as [|N IH]; intros a k dflt Hk; [lia|]. cbn [zrange_from map].
+  destruct k as [|k]; cbn [nth]; [f_equal; lia|]. rewrite IH by lia. f_equal. lia.
+Qed.
+
+Lemma zrange_length : forall N a, length (zrange_from a N) = N.
+Proof. induction N as [|N IH]; intros a; cbn [zrange_from length]; [reflexivity|]. rewrite IH. reflexivity. Qed.
+
+Lemma nth_firstn {A} : forall (l : list A) m k dflt, (k < m)%nat -> nth k (firstn m l) dflt = nth k l dflt.
+Proof.
+  induction l as [|x l IH]; intros m k dflt Hk; [rewrite firstn_nil; reflexivity|].
+  destruct m as [|m]; [lia|]. cbn [firstn]. destruct k as [|k]; cbn [nth]; [reflexivity|]. apply IH. lia.
+Qed.
+
+(* the n-th frame the spectator is asked to advance carries, for every player, the input the host holds for frame n
+   - which is what the host's own game simulated frame n with, once the host has confirmed it *)
+Theorem spectator_replays_host :
+  forall (sparse : bool) (ops : list sop) (n w d : Z) (kinds : list pkind) (eps : list (list Z)) (nspec : nat)
+         (p : p2p) (outs : list (pout * apires)) (mfb cs : Z) (opsS : list Spectator.sp_hop),
+  1 <= w -> 0 <= d -> w + d + 3 <= QLEN -> 0 < n -> Z.of_nat (length kinds) = n -> players_only kinds -> (0 < nspec)%nat ->
+  srun_in predict (session_start n w sparse d kinds eps nspec) ops = Ok (p, outs) ->
+  Spectator.sp_wf n opsS -> SpectatorProofs.sp_hlen (Spectator.sp_hist opsS) < 2 ^ 31 ->
+  spectator_got_prefix outs opsS ->
+  exists t g gs, Spectator.sp_hrun (Spectator.sp_start n mfb cs) opsS = Ok t /\
+    exec_outs w (game0 w) outs = Some g /\ QSg sparse w d p gs /\
+    let del := Spectator.sp_delivered (Spectator.sp_t_calls t) in
+    (Z.of_nat (length del) <= ps_next_spec p) /\
+    forall k, (k < length del)%nat ->
+      map fst (nth k del []) = map (fun gh : ghost => hval (fst gh) (Z.of_nat k)) gs /\
+      (Z.of_nat k <= s_last_confirmed (ps_sync p) -> Z.of_nat k < s_current (ps_sync p) ->
+       forall h hist low, nth_error gs h = Some (hist, low) ->
+         nth h (map fst (nth k del [])) 0 = gvalL (g_hist g) (Z.of_nat k) h).
+Proof.
+  intros sparse ops n w d kinds eps nspec p outs mfb cs opsS Hw Hd Hc Hn Hl Hp Hns H Hwf Hlen Hlink.
+  assert (HH : exists g gs, exec_outs w (game0 w) outs = Some g /\ QSg sparse w d p gs /\
+    all_spec_sends outs = map (fun f => (f, held_at gs f)) (zrange_from 0 (Z.to_nat (ps_next_spec p))) /\
+    0 <= ps_next_spec p /\ s_last_confirmed (ps_sync p) + 1 <= ps_next_spec p /\
+    (forall h hist low f, nth_error gs h = Some (hist, low) ->
+       0 <= f <= s_last_confirmed (ps_sync p) -> f < s_current (ps_sync p) ->
+       f < hlen hist /\ gvalL (g_hist g) f h = hval hist f)).
+  { destruct sparse.
+    - exact (sparse_host_broadcast_and_game predict predict_idem predict_zero ops n w d kinds eps nspec p outs Hw Hd Hc Hn Hl Hp Hns H).
+    - exact (host_broadcast_and_game predict predict_idem predict_zero ops n w d kinds eps nspec p outs Hw Hd Hc Hn Hl Hp Hns H). }
+  destruct HH as (g & gs & Ex & HQS & Hall & Hns0 & _ & Hheld).
+  destruct (SpectatorProofs.sp_c06_order n mfb cs opsS ltac:(lia) Hwf Hlen) as (t & Et & Hdel & Hcur & Hle & Hlast).
+  exists t, g, gs. split; [exact Et|]. split; [exact Ex|]. split; [exact HQS|]. cbv zeta.
+  set (del := Spectator.sp_delivered (Spectator.sp_t_calls t)) in *.
+  set (hist := Spectator.sp_hist opsS) in *.
+  assert (Hbv : broadcast_values outs = map (fun f => map (fun gh : ghost => hval (fst gh) f) gs) (zrange_from 0 (Z.to_nat (ps_next_spec p)))).
+  { unfold broadcast_values. rewrite Hall, map_map. apply map_ext. intros f. cbn [snd]. unfold held_at. rewrite map_map. reflexivity. }
+  assert (Hdl : (length del <= length hist)%nat) by (unfold SpectatorProofs.sp_hlen in *; lia).
+  assert (Hhl : (length hist <= Z.to_nat (ps_next_spec p))%nat).
+  { unfold spectator_got_prefix in Hlink. fold hist in Hlink. pose proof (f_equal (@length _) Hlink) as X.
+    rewrite firstn_length, Hbv, map_length in X.
+    rewrite zrange_length in X. lia. }
+  split; [lia|].
+  intros k Hk.
+  assert (Hv : map fst (nth k del []) = map (fun gh : ghost => hval (fst gh) (Z.of_nat k)) gs).
+  { rewrite (Hdel k Hk). fold hist. unfold spectator_got_prefix in Hlink. fold hist in Hlink. rewrite Hlink.
+    rewrite nth_firstn by lia. rewrite Hbv. rewrite nth_map_zrange by lia. reflexivity. }
+  split; [exact Hv|].
+  intros Hkc Hkcur h hh low Eg. rewrite Hv.
+  destruct (Hheld h hh low (Z.of_nat k) Eg ltac:(lia) Hkcur) as (_ & Hg). rewrite Hg.
+  assert (Hm : nth_error (map (fun gh : ghost => hval (fst gh) (Z.of_nat k)) gs) h = Some (hval hh (Z.of_nat k))).
+  { rewrite nth_error_map. unfold ghost in *. rewrite Eg. reflexivity. }
+  exact (nth_error_nth _ _ _ Hm).
 Qed.
 
 End System.
